@@ -57,6 +57,9 @@ func (c17) Plan(tier string, seed int64) []core.Scenario {
 			}
 			out = append(out, core.Sc("silent").WithN("cfg", cfg).WithN("pt", pt).WithN("sp", pt%2+1))
 		}
+		if tier == "thorough" || cfg == 0 {
+			out = append(out, core.Sc("silent").WithN("cfg", cfg).WithN("pt", 5).WithN("sp", 0))
+		}
 	}
 	// the same healthy workloads on a link that was re-established once (keepalive must have been set up again)
 	for cfg := 0; cfg < 3; cfg++ {
@@ -72,6 +75,9 @@ func (c17) Plan(tier string, seed int64) []core.Scenario {
 	// the peer falls silent (and stops reading) while a request larger than the socket buffers is being
 	// written: the silence must still be acted on although a writer is blocked (shared with C03)
 	out = append(out, core.Sc("stalled-write").WithN("mb", 32))
+	// a healthy but slow link: a large response keeps the server's writer busy for seconds while pings and
+	// pongs are due in both directions (shared with C14)
+	out = append(out, core.Sc("slowpeer").WithN("mb", 24))
 	for i := range out {
 		out[i].Seed = seed*141650939 + int64(i)
 	}
@@ -80,6 +86,10 @@ func (c17) Plan(tier string, seed int64) []core.Scenario {
 
 func (p c17) Run(sc core.Scenario) core.Result {
 	r := core.NewR(sc)
+	if sc.Kind == "slowpeer" {
+		c14{}.slowPeer(sc, r)
+		return r.Result()
+	}
 	if sc.Kind == "stalled-write" {
 		// bounded-progress verdict with a 32x margin (16 s against a 500 ms timeout): no rescaled confirmation
 		runStalledWrite(sc, r)
@@ -94,11 +104,24 @@ func (p c17) Run(sc core.Scenario) core.Result {
 	}
 	// confirm: 3 isolated re-executions at a doubled time scale
 	confirmed := 0
+	var others []string
 	for i := 0; i < 3; i++ {
-		f2, _, _, _ := p.once(sc, 2)
+		f2, k2, _, _ := p.once(sc, 2)
 		r.Obs("executions", 1)
-		if len(f2) > 0 && f2[0].Finger == fails[0].Finger {
+		same := false
+		for _, a := range f2 {
+			for _, b := range fails {
+				if a.Finger == b.Finger {
+					same = true
+				}
+			}
+		}
+		if same {
 			confirmed++
+		} else if len(f2) > 0 {
+			others = append(others, f2[0].Finger)
+		} else {
+			others = append(others, "no failure ("+k2+")")
 		}
 	}
 	if confirmed == 3 {
@@ -106,7 +129,7 @@ func (p c17) Run(sc core.Scenario) core.Result {
 			r.Violate(f.Finger, "%s (reproduced 3/3 at doubled time scale)", f.Msg)
 		}
 	} else {
-		r.Inconclusive("timing observation not reproduced at doubled scale (%d/3): %s", confirmed, fails[0].Msg)
+		r.Inconclusive("timing observation not reproduced at doubled scale (%d/3; other outcomes: %v): %s", confirmed, others, fails[0].Msg)
 	}
 	return r.Result()
 }
@@ -270,6 +293,16 @@ func (c17) once(sc core.Scenario, scale int) (fails []core.Violation, key string
 			g = drainItems(ch, time.Millisecond, -1, nil)
 		}
 	}
+	if pt == 5 {
+		// the link is lost and re-established, and the new connection is silent from the moment its handshake
+		// completed - before any pong could arrive on it
+		before := env.Px.Accepts()
+		env.Px.BlackholeNext(1)
+		env.Px.KillAll(wsproxy.RST)
+		if !core.Eventually(5*timeout+2*time.Second, func() bool { return env.Px.Accepts() > before }) {
+			return nil, "reconnect-failed", false, nil
+		}
+	}
 	acc := env.Px.Accepts()
 	t0 := time.Now()
 	bound := 5*timeout + 2*time.Second
@@ -287,10 +320,10 @@ func (c17) once(sc core.Scenario, scale int) (fails []core.Violation, key string
 			fail("silent-peer-undetected", "call across a mid-frame blackhole returned a value of %d bytes (accepts %d -> %d, frames seen %d)", len(pending.Val), acc, env.Px.Accepts(), len(env.Px.Frames()))
 		}
 		pending = nil
-	} else {
+	} else if pt != 5 {
 		env.Px.KillAll(wsproxy.BLACKHOLE)
 	}
-	if pt == 3 {
+	if pt == 3 || pt == 5 {
 		// the application keeps issuing calls (one every timeout/4) while the peer is silent
 		first := Go("first", func() (string, error) { t := Tok("c"); return cl.Echo(bg, t, "") })
 		stop := make(chan struct{})
@@ -325,7 +358,7 @@ func (c17) once(sc core.Scenario, scale int) (fails []core.Violation, key string
 	if !core.Eventually(bound, func() bool { return env.Px.Accepts() > acc }) {
 		fail("silent-peer-no-redial", "no redial reached the proxy within %v of the peer falling silent (timeout %v)", bound, timeout)
 	}
-	sample = map[string]interface{}{"client_ping": cfg[0].String(), "client_timeout": cfg[1].String(), "blackhole_at": []string{"idle", "call in flight", "subscription open", "application keeps calling", "in the middle of a response frame"}[pt], "detected_after": time.Since(t0).String(), "scale": scale}
+	sample = map[string]interface{}{"client_ping": cfg[0].String(), "client_timeout": cfg[1].String(), "blackhole_at": []string{"idle", "call in flight", "subscription open", "application keeps calling", "in the middle of a response frame", "from the handshake of a re-established connection on, application keeps calling"}[pt], "detected_after": time.Since(t0).String(), "scale": scale}
 	env.Svc.ReleaseAll()
 	return
 }
